@@ -356,7 +356,7 @@ func (s c11Scenario) detectBound() time.Duration {
 		return c11T8 + c11T6
 	case "stallLinktest":
 		return 2 * (c11Linktest + c11T6)
-	case "stallRead":
+	case "stallRead", "stallReadShortCtx":
 		return c11WriteTO + c11T6
 	}
 	return 0
@@ -388,7 +388,7 @@ func c11Scenarios(c *Ctx) []c11Scenario {
 			add(role, lifeBehaviour{Kind: "cut", Cut: lifeCut{"data", "toLib", off}})
 		}
 		// timer-covered stalls and rejection
-		kinds := []string{"stallMidFrame", "stallLinktest", "stallRead"}
+		kinds := []string{"stallMidFrame", "stallLinktest", "stallRead", "stallReadShortCtx"}
 		if role == "active" {
 			kinds = append(kinds, "stallSelect", "rejectSelect", "selectStatus1Hold")
 		} else {
@@ -587,15 +587,21 @@ func c11RunScenario(s c11Scenario, slack time.Duration) (o c11Outcome) {
 			return
 		}
 		// drive the exchange that is going to fail
-		needSelected := s.Beh.Cut.Exchange == "data" || s.Beh.Cut.Exchange == "linktest" || s.Beh.Kind == "stallLinktest" || s.Beh.Kind == "stallRead" || s.Beh.Kind == "stallFrameSel"
+		needSelected := s.Beh.Cut.Exchange == "data" || s.Beh.Cut.Exchange == "linktest" || s.Beh.Kind == "stallLinktest" || s.Beh.Kind == "stallRead" || s.Beh.Kind == "stallReadShortCtx" || s.Beh.Kind == "stallFrameSel"
 		if needSelected {
 			if !lifeWait(5*time.Second, func() bool { return conn.State() == hsms.SelectedState }) {
 				o.failNote = "first generation never reached Selected"
 				return
 			}
-			if s.Beh.Cut.Exchange == "data" || s.Beh.Kind == "stallRead" {
+			if s.Beh.Cut.Exchange == "data" || s.Beh.Kind == "stallRead" || s.Beh.Kind == "stallReadShortCtx" {
 				go func() {
-					ctx, cancel := context.WithTimeout(context.Background(), 2*time.Second)
+					to := 2 * time.Second
+					if s.Beh.Kind == "stallReadShortCtx" {
+						// the CALLER gives up long before the write timeout fires: the failed write must still take
+						// the dead link down (after seeded change C11f-1)
+						to = 20 * time.Millisecond
+					}
+					ctx, cancel := context.WithTimeout(context.Background(), to)
 					defer cancel()
 					_, _ = conn.SendDataMessage(ctx, 1, 1, true, secs2.A("ABCD"))
 				}()
@@ -709,7 +715,7 @@ func c11ModelScript(s c11Scenario) (string, int) {
 		add("openStartOk")
 		// how far did the failing generation get?
 		switch {
-		case s.Beh.Cut.Exchange == "data" || s.Beh.Cut.Exchange == "linktest" || s.Beh.Kind == "stallLinktest" || s.Beh.Kind == "stallRead" || s.Beh.Kind == "stallFrameSel":
+		case s.Beh.Cut.Exchange == "data" || s.Beh.Cut.Exchange == "linktest" || s.Beh.Kind == "stallLinktest" || s.Beh.Kind == "stallRead" || s.Beh.Kind == "stallReadShortCtx" || s.Beh.Kind == "stallFrameSel":
 			up()
 			add("envDown")
 		case s.Beh.Kind == "noSelect":
